@@ -25,8 +25,10 @@ Paths(v, d) ==
   {<<>>} \cup (IF d = 0 THEN {}
                ELSE UNION {{<<s>> \o p : p \in Paths(Child(v, s), d - 1)} : s \in Steps(v)})
 
-InitOD == /\ IF Wide THEN ((tree \in WideTrees /\ layout \in Layouts) \/ (tree \in BigTrees /\ layout = 0))
-                  ELSE (tree \in AllTrees /\ layout \in Layouts)
+\* (the containers with hundreds of members are left to the parse corpora: a path set per key
+\* would square their cost)
+InitOD == /\ tree \in (IF Wide THEN WideTrees ELSE AllTrees)
+          /\ layout \in Layouts
           /\ path \in Paths(ParseText(RenderL(tree, layout)).v, D)
 NextOD == UNCHANGED <<tree, layout, path>>
 
